@@ -74,4 +74,203 @@ theorem genGetFinal_eq (a : Action) (c fallback : Nat) :
        obtain ⟨n, a'⟩ := r
        cases hc : (c == 0 && n == 0) <;> simp [hc])
 
+/-! ### `Action::merge` and the loop of `Action::from_routes_rule` (section `w4_translate_merge`)
+
+The translation works on structures GENERATED from the Rust struct definitions (`GenStatusCodeUpdate`,
+`GenLogOverride`: fields in declaration order, read from the source on every run); `toGen*` / `ofGen*` carry W3's
+records over, field by field and BY NAME (so a reordering of the Rust fields changes nothing, a new field breaks
+the build here). -/
+
+def toGenStatus (u : StatusCodeUpdate) : GenStatusCodeUpdate RuleId :=
+  { statusCode := u.statusCode, onResponseStatusCodes := u.onResponseStatusCodes,
+    excludeResponseStatusCodes := u.excludeResponseStatusCodes, fallbackStatusCode := u.fallbackStatusCode,
+    ruleId := u.ruleId, fallbackRuleId := u.fallbackRuleId, unitId := u.unitId, targetHash := u.targetHash }
+
+def ofGenStatus (g : GenStatusCodeUpdate RuleId) : StatusCodeUpdate :=
+  { statusCode := g.statusCode, onResponseStatusCodes := g.onResponseStatusCodes,
+    excludeResponseStatusCodes := g.excludeResponseStatusCodes, fallbackStatusCode := g.fallbackStatusCode,
+    ruleId := g.ruleId, fallbackRuleId := g.fallbackRuleId, unitId := g.unitId, targetHash := g.targetHash }
+
+def toGenLog (l : LogOverride) : GenLogOverride RuleId :=
+  { logOverride := l.logOverride, ruleId := l.ruleId, onResponseStatusCodes := l.onResponseStatusCodes,
+    excludeResponseStatusCodes := l.excludeResponseStatusCodes, fallbackLogOverride := l.fallbackLogOverride,
+    fallbackRuleId := l.fallbackRuleId, unitId := l.unitId }
+
+def ofGenLog (g : GenLogOverride RuleId) : LogOverride :=
+  { logOverride := g.logOverride, ruleId := g.ruleId, onResponseStatusCodes := g.onResponseStatusCodes,
+    excludeResponseStatusCodes := g.excludeResponseStatusCodes, fallbackLogOverride := g.fallbackLogOverride,
+    fallbackRuleId := g.fallbackRuleId, unitId := g.unitId }
+
+theorem ofGen_toGen_status (u : StatusCodeUpdate) : ofGenStatus (toGenStatus u) = u := rfl
+theorem ofGen_toGen_log (l : LogOverride) : ofGenLog (toGenLog l) = l := rfl
+
+/-- the translated `Action::merge` as an operation on model actions (`rules_applied` is not touched by the code) -/
+def genMerge (self other : Action) : Action :=
+  let r := genActionMerge lhsInsert
+    (self.statusCodeUpdate.map toGenStatus) self.headerFilters self.bodyFilters self.ruleIds self.ruleTraces
+    (self.logOverride.map toGenLog)
+    (other.statusCodeUpdate.map toGenStatus) other.headerFilters other.bodyFilters other.ruleIds other.ruleTraces
+    (other.logOverride.map toGenLog)
+  { statusCodeUpdate := r.1.map ofGenStatus, headerFilters := r.2.1, bodyFilters := r.2.2.1, ruleIds := r.2.2.2.1,
+    ruleTraces := r.2.2.2.2.1, rulesApplied := self.rulesApplied, logOverride := r.2.2.2.2.2.map ofGenLog }
+
+theorem mergeLoop1_eq {ι φ : Type} (ins : List ι → ι → List ι) (o s : List φ) :
+    genActionMergeLoop1 ins o s = s ++ o := by
+  induction o generalizing s with
+  | nil => simp [genActionMergeLoop1]
+  | cons x xs ih => simp [genActionMergeLoop1, ih]
+
+theorem mergeLoop2_eq {ι β : Type} (ins : List ι → ι → List ι) (o s : List β) :
+    genActionMergeLoop2 ins o s = s ++ o := by
+  induction o generalizing s with
+  | nil => simp [genActionMergeLoop2]
+  | cons x xs ih => simp [genActionMergeLoop2, ih]
+
+theorem mergeLoop3_eq {ι : Type} (ins : List ι → ι → List ι) (o s : List ι) :
+    genActionMergeLoop3 ins o s = o.foldl ins s := by
+  induction o generalizing s with
+  | nil => simp [genActionMergeLoop3]
+  | cons x xs ih => simp [genActionMergeLoop3, ih]
+
+theorem mergeLoop4_eq {ι τ : Type} (ins : List ι → ι → List ι) (o s : List τ) :
+    genActionMergeLoop4 ins o s = s ++ o := by
+  induction o generalizing s with
+  | nil => simp [genActionMergeLoop4]
+  | cons x xs ih => simp [genActionMergeLoop4, ih]
+
+theorem genMerge_eq (self other : Action) : genMerge self other = self.merge other := by
+  obtain ⟨st, hf, bf, rids, tr, ra, lg⟩ := self
+  obtain ⟨st', hf', bf', rids', tr', ra', lg'⟩ := other
+  simp only [genMerge, genActionMerge, Action.merge, mergeLoop1_eq, mergeLoop2_eq, mergeLoop3_eq, mergeLoop4_eq,
+    Action.mk.injEq, true_and, and_true]
+  constructor
+  · cases st' with
+    | none => cases st <;> simp [mergeStatus, ofGen_toGen_status]
+    | some n =>
+      cases st with
+      | none => simp [mergeStatus, ofGen_toGen_status]
+      | some o =>
+        simp only [mergeStatus, Option.map_some]
+        by_cases hc : (!o.onResponseStatusCodes.isEmpty || n.onResponseStatusCodes.isEmpty) = true
+        · simp [toGenStatus, ofGenStatus, hc]
+        · simp [toGenStatus, ofGenStatus, hc]
+  · cases lg' with
+    | none => cases lg <;> simp [mergeLog, ofGen_toGen_log]
+    | some n =>
+      cases lg with
+      | none => simp [mergeLog, ofGen_toGen_log]
+      | some o =>
+        simp only [mergeLog, Option.map_some]
+        by_cases hc : (!o.onResponseStatusCodes.isEmpty || n.onResponseStatusCodes.isEmpty) = true
+        · simp [toGenLog, ofGenLog, hc]
+        · simp [toGenLog, ofGenLog, hc]
+
+/-- `Action::from_route_rule(route, request)` as the loop sees it (the fourth component, the configuration unit
+id, only feeds the unit trace) -/
+def frr (q : Req) (draw : Rule → Nat) (r : Rule) : Option Action × Bool × Bool × Option String :=
+  let x := fromRouteRule r q (draw r)
+  (x.1, x.2.1, x.2.2, none)
+
+theorem genLoop_eq (q : Req) (draw : Rule → Nat) (rs : List Rule) (a : Action) :
+    genFromRoutesRuleLoop1 (frr q draw) Action.merge rs a = foldRoutes q draw a rs := by
+  induction rs generalizing a with
+  | nil => rfl
+  | cons r rest ih =>
+    unfold genFromRoutesRuleLoop1 foldRoutes
+    rcases h : fromRouteRule r q (draw r) with ⟨o, reset, stop⟩
+    cases o with
+    | none => simp [frr, h, ih]
+    | some ar => cases reset <;> cases stop <;> simp [frr, h, ih]
+
+/-- **the translated `from_routes_rule` (sort, loop, translated `merge`) is W3's `fromRoutesRule`** -/
+theorem genFromRoutesRule_eq (R : List Rule) (q : Req) (draw : Rule → Nat) :
+    genFromRoutesRule (frr q draw) genMerge Action.empty sortRules R = fromRoutesRule R q draw := by
+  have e : genMerge = Action.merge := by funext a b; exact genMerge_eq a b
+  rw [e]
+  unfold genFromRoutesRule fromRoutesRule
+  exact genLoop_eq q draw _ _
+
+/-! ### the selection loops of `filter_headers` / `create_filter_body` (section `w4_translate_select`) -/
+
+def toGenTrace (t : RuleTrace) : GenRuleTrace RuleId :=
+  { id := t.id, onResponseStatusCodes := t.onResponseStatusCodes,
+    excludeResponseStatusCodes := t.excludeResponseStatusCodes }
+
+def toGenHF (f : HeaderFilterAction) : GenHeaderFilterAction HeaderFilter RuleId :=
+  { filter := f.filter, onResponseStatusCodes := f.onResponseStatusCodes,
+    excludeResponseStatusCodes := f.excludeResponseStatusCodes, ruleId := f.ruleId }
+
+def toGenBF (f : BodyFilterAction) : GenBodyFilterAction BodyFilter RuleId :=
+  { filter := f.filter, onResponseStatusCodes := f.onResponseStatusCodes,
+    excludeResponseStatusCodes := f.excludeResponseStatusCodes, ruleId := f.ruleId }
+
+/-- the steps of W3's folds (`Action.filterHeaders`, `Action.createFilterBody`) -/
+def traceStep (c : Nat) (s : List RuleId) (t : RuleTrace) : List RuleId :=
+  if traceApplies t.onResponseStatusCodes t.excludeResponseStatusCodes c then lhsInsert s t.id else s
+
+def headerStep (c : Nat) (st : List HeaderFilter × List RuleId) (f : HeaderFilterAction) :
+    List HeaderFilter × List RuleId :=
+  if filterSkipped f.onResponseStatusCodes f.excludeResponseStatusCodes c then st
+  else (st.1 ++ [f.filter], lhsInsertOpt st.2 f.ruleId)
+
+def bodyStep (c : Nat) (st : List BodyFilter × List RuleId) (f : BodyFilterAction) :
+    List BodyFilter × List RuleId :=
+  if filterSkipped f.onResponseStatusCodes f.excludeResponseStatusCodes c then st
+  else (st.1 ++ [f.filter], lhsInsertOpt st.2 f.ruleId)
+
+theorem traceLoop_eq (c : Nat) (ts : List RuleTrace) (s : List RuleId) :
+    genActionSelectHeaderFiltersLoop1 lhsInsert c (ts.map toGenTrace) s = ts.foldl (traceStep c) s := by
+  induction ts generalizing s with
+  | nil => rfl
+  | cons t rest ih =>
+    simp only [List.map_cons, List.foldl_cons, genActionSelectHeaderFiltersLoop1, toGenTrace]
+    cases h1 : t.onResponseStatusCodes.isEmpty <;> cases h2 : t.excludeResponseStatusCodes <;>
+      by_cases h3 : c ∈ t.onResponseStatusCodes <;>
+      simp [traceStep, traceApplies, h1, h2, h3, ih, toGenTrace]
+
+theorem headerLoop_eq (c : Nat) (fs : List HeaderFilterAction) (s : List RuleId) (xs : List HeaderFilter) :
+    genActionSelectHeaderFiltersLoop2 lhsInsert c (fs.map toGenHF) s xs =
+      ((fs.foldl (headerStep c) (xs, s)).2, (fs.foldl (headerStep c) (xs, s)).1) := by
+  induction fs generalizing s xs with
+  | nil => rfl
+  | cons f rest ih =>
+    simp only [List.map_cons, List.foldl_cons, genActionSelectHeaderFiltersLoop2, toGenHF]
+    cases h1 : f.onResponseStatusCodes.isEmpty <;> cases h2 : f.excludeResponseStatusCodes <;>
+      by_cases h3 : c ∈ f.onResponseStatusCodes <;> cases h4 : f.ruleId <;>
+      simp [headerStep, filterSkipped, lhsInsertOpt, h1, h2, h3, h4, ih, toGenHF]
+
+theorem bodyLoop_eq (c : Nat) (fs : List BodyFilterAction) (s : List RuleId) (xs : List BodyFilter) :
+    genActionCreateFilterBodyLoop1 lhsInsert c (fs.map toGenBF) s xs =
+      ((fs.foldl (bodyStep c) (xs, s)).2, (fs.foldl (bodyStep c) (xs, s)).1) := by
+  induction fs generalizing s xs with
+  | nil => rfl
+  | cons f rest ih =>
+    simp only [List.map_cons, List.foldl_cons, genActionCreateFilterBodyLoop1, toGenBF]
+    cases h1 : f.onResponseStatusCodes.isEmpty <;> cases h2 : f.excludeResponseStatusCodes <;>
+      by_cases h3 : c ∈ f.onResponseStatusCodes <;> cases h4 : f.ruleId <;>
+      simp [bodyStep, filterSkipped, lhsInsertOpt, h1, h2, h3, h4, ih, toGenBF]
+
+/-- **the translated selection loops of `filter_headers` are W3's `Action.filterHeaders`**: the filters handed to
+`FilterHeaderAction::new` and the new `rules_applied` -/
+theorem genSelectHeaderFilters_eq (a : Action) (c : Nat) (add : Bool) :
+    genActionSelectHeaderFilters lhsInsert c (a.ruleTraces.map toGenTrace) (a.headerFilters.map toGenHF)
+        a.rulesApplied =
+      ((a.filterHeaders c add).filters, (a.filterHeaders c add).action.rulesApplied) := by
+  simp only [genActionSelectHeaderFilters, traceLoop_eq, headerLoop_eq, Action.filterHeaders]
+  rfl
+
+/-- **the translated `create_filter_body` is W3's `Action.createFilterBody`** followed by
+`FilterBodyAction::new` / `is_empty` (parameters) -/
+theorem genCreateFilterBody_eq {κ : Type} (newBody : List BodyFilter → κ) (isEmptyBody : κ → Bool)
+    (a : Action) (c : Nat) :
+    genActionCreateFilterBody lhsInsert c newBody isEmptyBody (a.bodyFilters.map toGenBF) a.rulesApplied =
+      ((if isEmptyBody (newBody (a.createFilterBody c).1) then none else some (newBody (a.createFilterBody c).1)),
+       (a.createFilterBody c).2.rulesApplied) := by
+  simp only [genActionCreateFilterBody, bodyLoop_eq, Action.createFilterBody]
+  have e : (fun (st : List BodyFilter × List RuleId) (f : BodyFilterAction) =>
+      if filterSkipped f.onResponseStatusCodes f.excludeResponseStatusCodes c = true then st
+      else (st.1 ++ [f.filter], lhsInsertOpt st.2 f.ruleId)) = bodyStep c := rfl
+  simp only [e]
+  split <;> rfl
+
 end Rio.ActionGen
